@@ -101,6 +101,8 @@ def spline_cases(draw):
 def check_spline(case, ctx):
     forces, obs, mindist = case["forces"], case["obs"], case["mindist"]
     oe, on = arr(obs, 0, case["oshape"], case["order"]), arr(obs, 1, case["oshape"], case["order"])
+    if vbuild.plain_flag(case):
+        oe, on = oe.astype(">f8"), on.astype(">f8")  # observation points as read from a big-endian file (same values, non-native byte order)
     fe, fn = arr(forces, 0), arr(forces, 1)
     sp = spline_obj(mindist)
     jac = np.asarray(sp.jacobian((oe, on), (fe, fn)))
@@ -155,6 +157,8 @@ def check_vector(case, ctx):
     forces, obs, mindist, nu = case["forces"], case["obs"], case["mindist"], case["poisson"]
     nobs, nf = len(obs), len(forces)
     oe, on = arr(obs, 0, case["oshape"], case["order"]), arr(obs, 1, case["oshape"], case["order"])
+    if vbuild.plain_flag(case):
+        oe, on = oe.astype(">f8"), on.astype(">f8")  # observation points as read from a big-endian file (same values, non-native byte order)
     fe, fn = arr(forces, 0), arr(forces, 1)
     vs = vd.VectorSpline2D(poisson=nu, mindist=mindist, force_coords=(vbuild.present(fe, case.get("force_container")), vbuild.present(fn, case.get("force_container"))))
     jac = np.asarray(vs.jacobian((oe, on), (fe, fn)))
